@@ -130,7 +130,10 @@ def cgauss_vs_real_composite(covariance, y):
         cond = float(ev[-1] / ev[0])
         if not (ev[0] > 0 and cond <= 1.0001e8):
             return Skip('covariance outside the domain (not PD or condition > 1e8)')
-        want = du.ref_cgauss(cb[idx], yb[idx])
+        try:
+            want = du.ref_cgauss(cb[idx], yb[idx])
+        except (ValueError, np.linalg.LinAlgError):      # scipy's own singularity test at extreme overall scales
+            want = du.ref_cgauss_eig(cb[idx], yb[idx])
         ok, ratio = _close(got[idx], want, rtol=1e-10 + 2e-14 * cond, atol=1e-10)
         if ok:                                   # second evaluation: -D log pi - log det C - y^H C^-1 y by eigh
             want = du.ref_cgauss_eig(cb[idx], yb[idx])
@@ -448,6 +451,12 @@ def search(ctx):
         N = int(rng.integers(1, 5))
         ylead = lead if (rng.random() < 0.7 or not lead) else tuple(lead[:-1]) + (1,)
         y = du.observations(rng, ylead, N, D, True, scale=float(np.sqrt(np.abs(cov).max())))
+        if rng.random() < 0.25:
+            # overall level of the recording: the density is defined for every positive definite covariance, whatever its
+            # scale (the determinant itself leaves the double range long before its logarithm does)
+            lg = float(rng.uniform(-42, 38))
+            cov, y = cov * 10.0 ** lg, y * 10.0 ** (lg / 2)
+            ctx.count('search-cgauss-scale-1e%d' % (10 * int(np.floor(lg / 10))))
         ctx.count(f'search-cgauss-D{D}')
         held = ctx.run(cgauss_vs_real_composite, covariance=cov, y=y)
         if i == 0:
